@@ -116,7 +116,7 @@ let load ctx (img : n list) (h : string) : out =
       Snap ("ok", h)
   | LErr -> Plain "err"
   | LPanic -> raise Model_panic
-  | LUnmod -> raise (Model_other "UNMODELLED")
+  | LUnmod -> Plain "UNMODELLED-LOAD"   (* a number beyond the model's cut-off: no claim, the history goes on *)
 
 let step (ctx : ctx) (t : string array) : out =
   match stateless t with
